@@ -83,7 +83,7 @@ Proof.
   intro n. constructor; cbn; auto; try (intros; exact shaped_nil); try congruence; try (intros; discriminate).
 Qed.
 
-Ltac cproj := cbn [wire cs thr sent got lossless ends regs errs_in errs_out eofs alive q closed rclosed errs cb oq] in *.
+Ltac cproj := cbn [wire cs thr sent got lossless ends regs errs_in errs_out eofs fin alive q closed rclosed errs cb oq] in *.
 Ltac fsplit j id := destruct (Nat.eq_dec j id) as [->|?Hne]; [rewrite ?fupd_eq in *|rewrite ?fupd_ne in * by assumption]; cproj.
 Ltac crem := match goal with |- ?G => idtac "REM:" G end.
 
@@ -108,6 +108,7 @@ Qed.
 Lemma step_new : forall s id s', CInv s -> cstep c s (LNew id) = Some s' -> CInv s'.
 Proof.
   intros s id s' I H. cbn in H.
+  destruct (fin s) eqn:F; [discriminate|]. cbn [orb] in H.
   destruct (alive (cs s id)) eqn:A; [discriminate|]. cbn [orb] in H.
   destruct (existsb _ (thr s)) eqn:Ex; [discriminate|]. cbn [orb] in H.
   destruct (cb (cs s id)) eqn:Cb; [discriminate|]. inversion H; subst; clear H. destruct I. constructor; cproj.
@@ -143,7 +144,7 @@ Proof. reflexivity. Qed.
 
 Lemma step_recv : forall s s', CInv s -> cstep c s LRecv = Some s' -> CInv s'.
 Proof.
-  intros s s' I H. cbn in H. destruct (wire s) as [|[id x|id k] w] eqn:W; [discriminate| |].
+  intros s s' I H. cbn in H. destruct (fin s) eqn:F; [discriminate|]. destruct (wire s) as [|[id x|id k] w] eqn:W; [discriminate| |].
   - (* a DATA frame *)
     destruct (cb (cs s id)) as [wanted|] eqn:Cb.
     + (* callback registered: callback(data) *)
@@ -195,6 +196,7 @@ Qed.
 Lemma step_get : forall s t id s', CInv s -> cstep c s (LGet t id) = Some s' -> CInv s'.
 Proof.
   intros s t id s' I H. cbn in H. destruct (nth_error (thr s) t) as [[|hid]|] eqn:T; try discriminate.
+  destruct (held (cs s id)) eqn:Hd; [|discriminate].
   destruct (q (cs s id)) as [[|[x|] lq]|] eqn:Q; try discriminate; inversion H; subst; clear H.
   - (* an item *)
     pose proof (c_shape _ I id) as Sh. rewrite Q in Sh. cproj. destruct I. constructor; cproj; auto.
@@ -250,6 +252,7 @@ Lemma qitems_shaped_noend : forall l, shaped l -> qends l = 0 -> True. Proof. au
 Lemma step_setcb : forall s id wanted s', CInv s -> cstep c s (LSetCb id wanted) = Some s' -> CInv s'.
 Proof.
   intros s id wanted s' I H. cbn in H. rewrite C in H. cbn [negb] in H.
+  destruct (held (cs s id)) eqn:Hd; [|discriminate].
   destruct (q (cs s id)) as [lq|] eqn:Q; [|discriminate].
   assert (NoCb : cb (cs s id) = None).
   { destruct (cb (cs s id)) eqn:Cb; auto. rewrite (c_cbq _ I id) in Q by congruence. discriminate. }
@@ -272,6 +275,22 @@ Proof.
   - intros j N. fsplit j id; [reflexivity|auto].
 Qed.
 
+Lemma step_finish : forall s s', CInv s -> cstep c s LFinish = Some s' -> CInv s'.
+Proof.
+  intros s s' I H. cbn in H. destruct (fin s) eqn:F; [discriminate|]. inversion H; subst; clear H. destruct I.
+  unfold local_close. constructor; cproj.
+  - intros j L. pose proof (c_cons0 j L) as E. destruct (alive (cs s j)); cproj; [|exact E]. destruct (q (cs s j)); cproj; [|exact E].
+    rewrite qitems_app. cbn [qitems flat_map]. rewrite app_nil_r. exact E.
+  - intros j. destruct (alive (cs s j)); cproj; [|auto]. pose proof (c_shape0 j) as Sh.
+    destruct (q (cs s j)); cproj; [apply shaped_end; exact Sh|exact shaped_nil].
+  - intros j Aj. destruct (alive (cs s j)); cproj; discriminate.
+  - intros j l R Qj. destruct (alive (cs s j)) eqn:A; cproj; [|eauto]. destruct (q (cs s j)); cproj; [|discriminate].
+    inversion Qj; subst. rewrite qends_app. cbn. lia.
+  - intros j. pose proof (c_ends0 j) as E. unfold fires. destruct (alive (cs s j)); cproj; destruct (cb (cs s j)) as [[|]|]; lia.
+  - intros j. pose proof (c_errs0 j). destruct (alive (cs s j)); cproj; lia.
+  - intros j N. destruct (alive (cs s j)); cproj; congruence.
+Qed.
+
 Theorem cstep_inv : forall s l s', CInv s -> cstep c s l = Some s' -> CInv s'.
 Proof.
   intros s l s' I H. destruct l.
@@ -283,6 +302,7 @@ Proof.
   - eapply step_get; eauto.
   - eapply step_reput; eauto.
   - eapply step_setcb; eauto.
+  - eapply step_finish; eauto.
 Qed.
 
 Theorem crun_inv : forall ls s, CInv s -> CInv (crun c ls s).
@@ -337,7 +357,7 @@ End Props.
 Lemma close_forgets : forall c s s' id k w, wire s = FEnd id k :: w -> cstep c s LRecv = Some s' ->
   alive (cs s' id) = false /\ cb (cs s' id) = None.
 Proof.
-  intros c s s' id k w W H. simpl in H. rewrite W in H. injection H as <-. simpl. unfold fupd. rewrite Nat.eqb_refl.
+  intros c s s' id k w W H. simpl in H. destruct (fin s); [discriminate|]. rewrite W in H. injection H as <-. simpl. unfold fupd. rewrite Nat.eqb_refl.
   unfold local_close. destruct (alive (cs s id)); simpl; auto.
 Qed.
 (* ... and the only steps that register an id are new(id) and setcallback *)
@@ -345,17 +365,17 @@ Lemma registers_only_new_setcb : forall c s l s' id, cstep c s l = Some s' ->
   (alive (cs s id) = false /\ alive (cs s' id) = true -> l = LNew id) /\
   (cb (cs s id) = None /\ cb (cs s' id) <> None -> exists w, l = LSetCb id w).
 Proof.
-  intros c s l s' id H. destruct l as [j x|j k|j|j| |t j|t|j w]; simpl in H.
+  intros c s l s' id H. destruct l as [j x|j k|j|j| |t j|t|j w|]; simpl in H.
   - injection H as <-. simpl. split; intros [A B]; congruence.
   - injection H as <-. simpl. split; intros [A B]; congruence.
-  - destruct (_ || _ || _) eqn:G; try discriminate. injection H as <-. simpl. unfold fupd.
+  - destruct (_ || _ || _ || _) eqn:G; try discriminate. injection H as <-. simpl. unfold fupd.
     destruct (Nat.eqb id j) eqn:E.
     + apply Nat.eqb_eq in E. subst. split; auto. intros [A B]. simpl in B. congruence.
     + split; intros [A B]; congruence.
   - destruct (alive (cs s j)); try discriminate. injection H as <-. simpl. unfold fupd.
     destruct (Nat.eqb id j) eqn:E; simpl; split; intros [A B]; try congruence.
     apply Nat.eqb_eq in E. subst. congruence.
-  - destruct (wire s) as [|[j x|j k] w]; try discriminate.
+  - destruct (if fin s then [] else wire s) as [|[j x|j k] w]; try discriminate.
     + destruct (cb (cs s j)) eqn:CB.
       * injection H as <-. simpl. split; intros [A B]; congruence.
       * destruct (if alive (cs s j) then q (cs s j) else None) eqn:Q; injection H as <-; simpl; unfold fupd;
@@ -363,12 +383,13 @@ Proof.
           apply Nat.eqb_eq in E; subst; congruence.
     + injection H as <-. simpl. unfold fupd. destruct (Nat.eqb id j) eqn:E; simpl; split; intros [A B]; try congruence;
         apply Nat.eqb_eq in E; subst; unfold local_close in *; destruct (alive (cs s j)); simpl in *; congruence.
-  - destruct (nth_error (thr s) t) as [[|h]|]; try discriminate. destruct (q (cs s j)) as [[|[x|] lq]|]; try discriminate;
+  - destruct (nth_error (thr s) t) as [[|h]|]; try discriminate. destruct (held (cs s j)); try discriminate. destruct (q (cs s j)) as [[|[x|] lq]|]; try discriminate;
       injection H as <-; simpl; unfold fupd; destruct (Nat.eqb id j) eqn:E; simpl; split; intros [A B]; try congruence;
       apply Nat.eqb_eq in E; subst; congruence.
   - destruct (nth_error (thr s) t) as [[|h]|]; try discriminate. injection H as <-; simpl; unfold fupd;
       destruct (Nat.eqb id h) eqn:E; simpl; split; intros [A B]; try congruence; apply Nat.eqb_eq in E; subst; congruence.
-  - destruct (negb (setcb_atomic c)); try discriminate. destruct (q (cs s j)) as [lq|]; try discriminate.
+  - destruct (negb (setcb_atomic c)); try discriminate. destruct (held (cs s j)); try discriminate. destruct (q (cs s j)) as [lq|]; try discriminate.
     destruct (negb (Nat.eqb (qends lq) 0)); injection H as <-; simpl; unfold fupd; destruct (Nat.eqb id j) eqn:E; simpl; split; intros [A B]; try congruence;
       apply Nat.eqb_eq in E; subst; try congruence; eauto.
+  - destruct (fin s); try discriminate. injection H as <-. simpl. unfold local_close. split; intros [A B]; destruct (alive (cs s id)); simpl in *; congruence.
 Qed.
